@@ -76,7 +76,7 @@ func loadEngine(repoDir string, patterns []string, contractDirs []string) (*Engi
 	// directories of assumed contracts for external code
 	for _, p := range pkgs {
 		for _, f := range p.CompiledGoFiles {
-			if filepath.Base(f) == "verif_contracts.go" {
+			if strings.HasPrefix(filepath.Base(f), "verif_contracts") {
 				if err := e.cs.loadContractFile(f, p.PkgPath); err != nil {
 					return nil, err
 				}
